@@ -7,10 +7,11 @@ patch=$1; tier=$2; shift 2
 cd "$(dirname "$0")/.."
 exec 9>/verif/.work/alt.lock; flock 9
 mkdir -p /scratch/altrepo .work/alt .work/logs
-rsync -a --delete --exclude target --exclude .git /repo/ /scratch/altrepo/
+rsync -rlpgoD --checksum --delete --exclude target --exclude .git /repo/ /scratch/altrepo/   # no -t: a restored file must get a fresh mtime or cargo keeps the stale build
 if [ "$patch" != "-" ]; then
   (cd /scratch/altrepo && patch -p1 --quiet < "$patch") || { echo "PATCH-DOES-NOT-APPLY $patch"; exit 3; }
 fi
+touch /scratch/altrepo/src/lib.rs   # always rebuild: cargo compares mtimes, a file restored with an old mtime would keep a stale binary
 for id in "$@"; do
   s=$(date +%s)
   tag=$(basename $(dirname "$patch") 2>/dev/null)
